@@ -224,7 +224,7 @@ def r_single_copies(ck: Checker) -> None:
     for sig, cond, why in conds:
         ck.guard(sig, func, site, cond, why or "side condition of unfolding a single definition")
     # A4 head arguments are variables
-    var_fact = [k for k, v in it.known(site) if v is True and k.startswith("all(map(lambda") and "ASTType.Variable" in k and k.endswith(f"{hlit}.atom.symbol.arguments))")]
+    var_fact = [k for k, v in it.known(site) if v is True and re.match(r"all\(\((\w+)\.ast_type == ASTType\.Variable for \1 in ", k) and k.endswith(f"{hlit}.atom.symbol.arguments))")]
     ck.add("A4 head arguments are variables", bool(var_fact), func, site, f"dominating fact: {var_fact}", "a constant or function term in the head is an implicit condition that unfolding would drop")
     # A4 distinctness (sibling inline.is_single checks it)
     dist = [k for k, v in it.known(site) if v is True and re.search(r"len\(set\(.*\)\) == len\(", k) and hlit in k]
